@@ -18,11 +18,11 @@ def run_all():
     os.makedirs(OUT, exist_ok=True)
     import importlib
     res = {}
-    for name in ('perms', 'floatsites', 'idents', 'optable'):
+    for name in ('perms', 'floatsites', 'idents', 'optable', 'tailsites'):
         mod = importlib.import_module('translator.' + name)
         tmp = os.path.join(OUT, '.' + name + '.tmp')
         info = mod.emit(tmp)
-        final = os.path.join(OUT, {'optable': 'Ops'}.get(name, name.capitalize()) + '.v')
+        final = os.path.join(OUT, {'optable': 'Ops', 'tailsites': 'Tails'}.get(name, name.capitalize()) + '.v')
         write_if_changed(final, open(tmp).read())
         os.remove(tmp)
         res[name] = info
